@@ -300,7 +300,7 @@ class TreeTranslator:
                 return f"(.leafTest {self.seq(st.body)})"
             c = self._norm(self.cond(st.test))
             # the structure block: the first `if cls.structure is not None:` after flattening whose body touches no storage
-            if c == ".hasStructure" and self.flattened and not st.orelse and "pytree_memo" in _u(st) and not self.loops:
+            if c == ".hasStructure" and self.flattened and not st.orelse and ("pytree_memo" in _u(st) or "if not cls._" in _u(st)) and not self.loops:
                 body = _strip(st.body)
                 # the block must look the structure memo up AGAIN (flattening may have rolled the context back, which swaps
                 # fresh dictionaries in): `_, _, pytree_memo, _ = get_shape_memo()` first, no other storage call after it
@@ -309,6 +309,18 @@ class TreeTranslator:
                     and _u(first.targets[0].elts[2]) == "pytree_memo" and _u(first.value) == "get_shape_memo()"
                 if reread and self._no_storage(body[1:]):
                     return "(.ite .hasStructure .structBlock .skip)"
+                # ... or the block lives in a method of the class: `if not cls.<m>(leaves, structure): return False`, the method
+                # re-reading the memo first and touching no other storage (the block stays one primitive, validated by C09)
+                if len(body) == 1 and isinstance(body[0], ast.If) and not body[0].orelse and isinstance(body[0].test, ast.UnaryOp) and isinstance(body[0].test.op, ast.Not) \
+                        and isinstance(body[0].test.operand, ast.Call) and isinstance(body[0].test.operand.func, ast.Attribute) and _u(body[0].test.operand.func.value) == "cls" \
+                        and [_u(x) for x in body[0].body] == ["return False"] and getattr(self, "cls_node", None) is not None:
+                    m = next((f for f in self.cls_node.body if isinstance(f, ast.FunctionDef) and f.name == body[0].test.operand.func.attr), None)
+                    mb = _strip(m.body) if m is not None else []
+                    f0 = mb[0] if mb else None
+                    m_reread = isinstance(f0, ast.Assign) and len(f0.targets) == 1 and isinstance(f0.targets[0], ast.Tuple) and len(f0.targets[0].elts) == 4 \
+                        and _u(f0.targets[0].elts[2]) == "pytree_memo" and _u(f0.value) == "get_shape_memo()"
+                    if m_reread and self._no_storage(mb[1:]) and not m.decorator_list:
+                        return "(.ite .hasStructure .structBlock .skip)"
                 if self._no_storage(body):
                     self.notes.append("the structure block uses the memo it was handed before flattening (stale after a rollback while flattening)")
                     return "(.ite .hasStructure .unknown .skip)"
@@ -393,6 +405,7 @@ def run():
         notes.append("__instancecheck__ not found / unexpected parameters")
     if ck is not None and [a.arg for a in ck.args.args] == ["cls", "obj", "pytree_memo"] and not ck.decorator_list:
         t = TreeTranslator(tree)
+        t.cls_node = cls
         ccode = t.seq(inline_helpers(ck, tree, cls).body)
         loops = t.loops
         notes += t.notes
